@@ -107,6 +107,27 @@ def run(ctx, replay=None):
                           "PopulationBalanceModel disagrees with PBMTransport.tla on %s" % bad,
                           {"case_json": j, "observed": o, "expected": e, "fields": bad})
 
+    grain_part(ctx)
+
+
+def grain_part(ctx):
+    """the step limit of GrainGrowthModel (the same transport on a grain size distribution) at every iteration, judged by Relations.tla"""
+    from .. import gg_drv as G
+    ev, info = G.step_limit_relations(ctx.tier)
+    reached, r = T.validate("Relations", [], [ev], "c07_grain")
+    ctx.add_tlc(r, "Relations over the grain growth step limits")
+    if r.violated or reached is None:
+        raise MachineryError("Relations failed (grain growth step limit)")
+    n = sum(1 for e in ev if e["e"] == "rel")
+    ctx.replayed += info["iterations"]
+    ctx.case("grain-growth-step-limit", nontrivial=n >= 20, sample={"events": ev[1:3], "info": info})
+    if ev[-1]["e"] != "exception" and (n < 20 or info["regrids"] < 2):
+        raise MachineryError("vacuity: grain growth runs made %d relations, %d changes of the size classes with a non-zero threshold" % (n, info["regrids"]))
+    if reached[0]["l"] != len(ev) + 1:
+        ctx.violation("grain-step:trace-not-consumed", "grain growth step relations not consumed", {})
+    for f in reached[0]["fails"]:
+        ctx.violation("grain-step:%s" % f[0], "GrainGrowthModel: %s violated at %s (observed %s, stated %s)" % (f[0], f[1], f[2], f[3]), {"fail": f})
+
 
 if __name__ == "__main__":
     main(run, "C07", "model_checking")
